@@ -183,9 +183,9 @@ type request struct {
 func main() {
 	out := hx.Flags("C34", 400)
 	out.Rule = "one request per case on real handlers over a real Store (volume 3, needles key 1 and 2); key configurations none/write/read/both (+ white list rarely); methods GET HEAD POST PUT DELETE on the private port (sometimes the public port); " +
-		"targets: existing file, its _1 sub-file, a missing key, another volume, textual variants (03, dropped leading zero), unparsable vid/fid; URL forms V,F  V/F  V/F/name  V,F.ext  V/F/x,F2 (finding 0)  and paths on which the parsers panic; " +
+		"targets: existing file, its _1 sub-file, a missing key, another volume, textual variants (03, dropped leading zero), unparsable vid/fid; URL forms V,F  V/F  V/F/name  V,F.ext  V/F/x,F2 (file name carrying another file id: the repaired finding 0)  and paths on which the parsers panic; " +
 		"tokens: valid HS256/384/512 (with and without exp), wrong fid, other volume, padded volume, claim with suffix, expired, nbf/iat in the future, other key, read key for write and vice versa, alg none, RS256-looking, unknown alg, tampered payload, garbage, empty; " +
-		"carried in ?jwt=, in Authorization (Bearer/BEARER/bearer/odd forms) or both; the witness of finding 0 is case 0; non-trivial = the key for the request class is configured and a token is presented; distinct = (config, method, port, URL, token kinds, carrier)"
+		"carried in ?jwt=, in Authorization (Bearer/BEARER/bearer/odd forms) or both; the former witness of finding 0 (now expected: 400, nothing written) is case 0; non-trivial = the key for the request class is configured and a token is presented; distinct = (config, method, port, URL, token kinds, carrier)"
 	root := hx.NewRng(out.Seed)
 	w := newWorld()
 	defer func() { w.close() }()
@@ -217,9 +217,9 @@ func main() {
 			ufidErr = fmt.Errorf("panic")
 		}
 		// the needle the store operation addresses
-		addrFid, addrNeedle, addrErr := fid, pn, fidErr
+		addrNeedle, addrErr := pn, fidErr
 		if isUpload {
-			addrFid, addrNeedle, addrErr = ufid, un, ufidErr
+			addrNeedle, addrErr = un, ufidErr
 		}
 		target := "TMissing"
 		if vidErr != nil || uint32(volId) != 3 {
@@ -228,11 +228,14 @@ func main() {
 			(addrNeedle.Id == 1 || addrNeedle.Id == 2) && uint32(addrNeedle.Cookie) == cookie {
 			target = "TExists"
 		}
-		addrBase := addrFid
-		if j := strings.LastIndex(addrFid, "_"); j > 0 {
-			addrBase = addrFid[:j]
+		// t_names_target refers to the file id the request names (parseURLPath's fid, whose
+		// "_n" sub-files a token for the base id opens by design); that the store operation of an
+		// upload addresses the very same needle is the separate bit rq_same_needle
+		addrBase := fid
+		if j := strings.LastIndex(fid, "_"); j > 0 {
+			addrBase = fid[:j]
 		}
-		reqBase, reqBaseOK := baseOf(vid, addrFid)
+		reqBase, reqBaseOK := baseOf(vid, fid)
 
 		target2 := path
 		if len(rq.q) > 0 {
@@ -325,10 +328,12 @@ func main() {
 			tab = append(tab, hx.Pair(nm, coqTok(t.f, nt)))
 		}
 		term := fmt.Sprintf("%s{| c_cfg := {| write_key := %s; read_key := %s; wl_active := %s |}; "+
-			"c_rq := {| rq_public := %s; rq_method := %s; rq_query_jwt := %s; rq_auth := %s; rq_path := %s; rq_vid_ok := %s; rq_fid_ok := %s; rq_upfid_ok := %s; rq_wl_pass := %s |}; "+
+			"c_rq := {| rq_public := %s; rq_method := %s; rq_query_jwt := %s; rq_auth := %s; rq_path := %s; rq_vid_ok := %s; rq_fid_ok := %s; rq_upfid_ok := %s; rq_same_needle := %s; rq_wl_pass := %s |}; "+
 			"c_tab := %s; c_presented := %s; c_target := %s; i_status := %s; i_changed := %s; i_leak := %s |}",
 			strings.Join(lets, ""), hx.Str(c.write), hx.Str(c.read), hx.Bool(c.wl != 0),
-			hx.Bool(rq.public), method, ref(req.URL.Query().Get("jwt")), ref(rq.auth), hx.Str(path), hx.Bool(vidErr == nil), hx.Bool(fidErr == nil), hx.Bool(ufidErr == nil), hx.Bool(c.wl == 1),
+			hx.Bool(rq.public), method, ref(req.URL.Query().Get("jwt")), ref(rq.auth), hx.Str(path), hx.Bool(vidErr == nil), hx.Bool(fidErr == nil), hx.Bool(ufidErr == nil),
+			// the comparison the repaired PostHandler makes, from the real needle parser
+			hx.Bool(fidErr == nil && ufidErr == nil && pn.Id == un.Id && pn.Cookie == un.Cookie), hx.Bool(c.wl == 1),
 			hx.List(tab), hx.List(presented), target, hx.N(uint64(status)), hx.Bool(changed), hx.Bool(leak))
 		port := "private"
 		if rq.public {
@@ -358,7 +363,8 @@ func main() {
 		}
 	}
 
-	// ---- case 0: the witness of known finding 0 (seed independent) ----
+	// ---- case 0: the former witness of finding 0 (seed independent): a token for file 1 and an
+	// upload path whose file name carries file 2; with the repair it must be 400 and verdict 0 ----
 	{
 		s, f := mkHS(jwt.SigningMethodHS256, writeKey, "3,01637037d6", now+1000, 0, 0)
 		q := url.Values{}
